@@ -90,9 +90,10 @@ def exInit : St String Nat := init 10 none 0
 example : ∃ s, run exInit
     [ (some 0, { op := some (.set "k" 1 5) }, 0), (some 0, {}, 0), (some 0, {}, 0), (some 0, {}, 0),   -- Set k 1 (ttl 5)
       (none, {}, 6),                                                                                   -- clock passes e
-      (some 1, { op := some .deleteExpired }, 0), (some 1, {}, 0), (some 1, {}, 0), (some 1, {}, 0),   -- T1 reads k expired
+      (some 1, { op := some .deleteExpired }, 0), (some 1, {}, 0), (some 1, {}, 0),
+      (some 1, { seen := some ⟨1, 5⟩ }, 0),                                                            -- T1 sees k expired
       (some 2, { op := some (.set "k" 2 100) }, 0), (some 2, {}, 0), (some 2, {}, 0), (some 2, {}, 0), -- T2 stores fresh
       (some 1, {}, 0), (some 1, {}, 0), (some 1, {}, 0) ] = some s ∧
-    s.g.items.get "k" = some ⟨2, 106⟩ ∧ s.g.abs.live.get "k" = some ⟨2, 106⟩ := ⟨_, rfl, by decide, by decide⟩
+    s.g.items.get "k" = some ⟨2, 106⟩ ∧ s.g.abs.live.get "k" = some ⟨2, 106⟩ ∧ (s.l 1).pc = .ret := ⟨_, rfl, by decide, by decide, by decide⟩
 
 end Props.C02
